@@ -1,5 +1,5 @@
 use std::fmt;
-use std::io::ErrorKind;
+use std::io::{self, ErrorKind};
 use std::ptr;
 #[cfg(not(may_verif))]
 use std::sync::atomic::{AtomicBool, AtomicPtr, Ordering};
@@ -17,8 +17,8 @@ use crate::coroutine_impl::{
 use crate::scheduler::get_scheduler;
 use crate::sync::atomic_dur::AtomicDuration;
 use crate::sync::AtomicOption;
-use crate::timeout_list::TimeoutHandle;
-use crate::yield_now::{get_co_para, yield_now, yield_with};
+use crate::timeout_list::{now, TimeoutHandle};
+use crate::yield_now::{get_co_para, set_co_para, yield_now, yield_with};
 
 #[derive(Debug, Copy, Clone, Eq, PartialEq)]
 pub enum ParkError {
@@ -232,16 +232,38 @@ impl EventSource for Park {
 
         // if we share the same park, the previous timer may wake up it by false
         // if we not deleted the timer in time
-        let timeout_handle = self
-            .timeout
-            .take()
-            .map(|dur| get_scheduler().add_timer(dur, self.wait_co.clone()));
+        //
+        // the timer is armed before the coroutine is published: if it expires
+        // in between, its handler finds the slot empty and the time-out would
+        // be lost. Remember a deadline that is not later than the entry's own
+        // (the clock is read before `add_timer` reads it) and re-check it
+        // after the publication (register-then-recheck, as for `state`)
+        let mut deadline = None;
+        let timeout_handle = self.timeout.take().map(|dur| {
+            deadline = Some(now().saturating_add(dur.as_nanos() as u64));
+            get_scheduler().add_timer(dur, self.wait_co.clone())
+        });
         self.set_timeout_handle(timeout_handle);
 
         let _g = self.delay_drop();
 
         // register the coroutine
         self.wait_co.store(co);
+
+        // re-check the time: the handler runs only at or after the entry's time,
+        // so a time-out that fired on the empty slot is always seen here. If the
+        // entry has not fired yet it will find the slot empty, or is removed by
+        // `remove_timeout_handle` when the coroutine is back in user space
+        if let Some(deadline) = deadline {
+            if now() >= deadline {
+                if let Some(mut co) = self.wait_co.take() {
+                    set_co_para(&mut co, io::Error::new(ErrorKind::TimedOut, "timeout"));
+                    run_coroutine(co);
+                }
+                // otherwise somebody else took the coroutine and resumes it
+                return;
+            }
+        }
 
         // re-check the state, only clear once after resume
         if self.state.load(Ordering::Acquire) {
